@@ -63,7 +63,7 @@ Proof.
   rewrite <- Hs. apply client_faithful_l; [rewrite Hn; vm_compute; tauto | exact Ha | |].
   - unfold client_guard. rewrite Hn. cbn [In].
     split; [intros H; repeat (destruct H as [H|H]; try discriminate); contradiction|].
-    split; [intros H; discriminate|]. split; [intros H; discriminate|]. split; [intros H; discriminate|].
+    split; [intros H; discriminate|]. split; [intros H; discriminate|]. split; [intros H; discriminate|]. split; [intros H; discriminate|].
     split; [intros H; repeat (destruct H as [H|H]; try discriminate); contradiction|].
     intros _. rewrite Hf. discriminate.
   - unfold rt_ok. rewrite Hn. cbn [In].
